@@ -61,6 +61,25 @@ CHANGE = {
  'C17c': ("martian/syntax/builtin_types.go BuiltinType.FilterJson", "the integrality check of a float given for an int became Trunc(x) == x: integral floats beyond int64 are accepted and rewritten to MinInt64"),
  'C18c': ("martian/core/jobmanager_remote.go formatArgs", "a 'do not quote twice' shortcut writes values that start and end with a double quote verbatim into the job script: the shell strips the quotes and expands what is inside"),
  'C19c': ("martian/syntax/refactoring/remove_input_param.go removeInputParam", "the scan of using(...) modifier bindings is skipped for calls to the edited callable: a pipeline input used only as 'disabled = self.X' on such a call is treated as unused and removed up the chain while the modifier stays"),
+ 'C01d': ("martian/core/fork.go Fork.expandForkFromObj", "the copy-on-write guard of the one-element branch tests the part's position in the fork id instead of the fork's index: an outer fork whose inner collection has exactly one element writes index 0 into the part it shares with the next outer fork, whose inner call then runs once instead of once per element"),
+ 'C02d': ("martian/core/node.go Node.makePrenodes", "the disable conditions inherited from enclosing pipelines are dropped before prenodes are made: a stage inside a sub-pipeline gated by 'disabled = X.flag' starts while X is still running"),
+ 'C03d': ("martian/syntax/resolve_stage.go resolveDisableExp", "append to the parent's disable list without copying: with 3 (5-7) enclosing run-time disable conditions sibling calls share the spare slot of the backing array and all obey the last sibling's own condition"),
+ 'C04d': ("martian/core/node.go Node.attachToFileParents + martian/core/stage.go Fork.removeFilePostNodes", "two sites: a reader is not added to the holder set of an argument that already has the nil (retain / top level) holder, and the removal treats 'one holder left' as 'the node being removed': a stage-level retained file is deleted when its first reader finishes"),
+ 'C05d': ("martian/core/post_process.go copyOutSymlink", "the 'already moved to outs/' branch (the crash-recovery path) writes the stage-directory path instead of the outs/ path: after an interruption between moving files and rewriting _outs the resumed run records outputs that do not point into outs/"),
+ 'C06d': ("cmd/mrp/runloop.go attemptRetry", "attemptRetry calls reset() (which refills the retry budget) instead of restart(): a fault that is taken for transient on every attempt is retried forever, mrp never fails"),
+ 'C07d': ("martian/syntax/compile_params.go BindStm.rewriteToDefaultOutput", "receiver and argument of the assignability test swapped in the legacy 'x = CALL' -> CALL.default rewrite: a float default output is accepted for an int parameter (and fails at run time), legal widenings are rejected"),
+ 'C08d': ("martian/syntax/tokenizer.go tokIntRule", "fast path accepts every integer token of up to 19 characters without the range check: 9223372036854775808..9999999999999999999 reaches parseInt and panics"),
+ 'C09d': ("martian/syntax/format_callable.go InParams/OutParams.getWidths", "type spellings of 40+ characters are left out of the column width: paramFormat pads with a negative count and the formatter (and the include-expanded rendering) panics"),
+ 'C10d': ("martian/syntax/merge_exp.go findMergeForkExpNode", "early return inside 'range v.Value' of a map / struct literal: with several directly bound members the fork_node of the serialized call graph follows Go map iteration order"),
+ 'C11d': ("martian/core/node.go Node.find", "descends only into the child whose name is a string prefix of the target and commits to it: notifications for TALLY_ALL are sent into sibling TALLY, dropped as 'unknown node', and the pipestance hangs"),
+ 'C12d': ("martian/core/stage.go Fork.updateState", "the join branch tests the split's state before releasing the --maxjobs slot: the slot of a running join is released on its first journal update and more than maxjobs cluster jobs run"),
+ 'C13d': ("martian/core/post_process.go Fork.handleOuts", "an output is only recorded when moving it raised no error: on a second post-processing pass (EEXIST for an outside-the-pipestance file) the whole parameter disappears from the top-level _outs"),
+ 'C14d': ("martian/core/storage.go Node.vdrCheckSymlink", "recursion turned into a loop that keeps testing the node's own directory: a symlinked ancestor directory is no longer noticed and VDR deletes files that were moved outside the pipestance"),
+ 'C15d': ("martian/syntax/equivalence.go BindStms.Equals", "'continue' at the wildcard entry became 'break': the bindings a wildcard expands to are never compared, so re-pointing '* = A' to '* = B' is accepted on re-attach"),
+ 'C16d': ("martian/syntax/format_exp.go FloatExp.format", "floats printed with %f below 1e21: integral values between 2^63 and 1e21 come out as 19-21 digit integer tokens that the MRO lexer rejects"),
+ 'C17d': ("martian/syntax/collection_types.go ArrayType.IsValidJson", "recursive helper passes s.Dim-1 instead of dim-1: for 3+ dimensions the element type is never reached, valid values are rejected and arrays of arrays of nulls of any depth accepted"),
+ 'C18d': ("martian/core/shell_quote.go shellSafeQuote", "pre-scan skips the byte after every multi-byte character: 'é$x' takes the fast path and is written unescaped inside double quotes"),
+ 'C19d': ("martian/syntax/refactoring/remove_unused_outputs.go removeCallRef", "IndexByte became LastIndexByte: an output referenced only through a projection two members deep (MID.rec.inner.x) is taken for unused and removed, the edited files no longer compile"),
 }
 matrix = collections.defaultdict(list)
 mp = os.path.join(ROOT, 'matrix.jsonl')
